@@ -23,7 +23,7 @@ import (
 func init() {
 	core.Register(&core.Prop{
 		ID:    "C13",
-		Modes: []core.ModeSpec{{Name: "history", Weight: 1}},
+		Modes: []core.ModeSpec{{Name: "history", Weight: 23}, {Name: "clients", Weight: 1}},
 		Run:   run,
 		Enum:  enum,
 	})
@@ -327,6 +327,10 @@ func stepKind(step string) string {
 }
 
 func run(c *core.Ctx) {
+	if c.Mode == "clients" {
+		runClients(c)
+		return
+	}
 	t := c.Tape
 	kind := t.Draw(len(kindNames))
 	nPool := 3 + t.Draw(6)
